@@ -195,3 +195,26 @@ class Program:
                 if init and init.get("k") == "f":
                     out.add(init["name"])
         return out
+
+
+def return_sites(fn):
+    """Leaves of the returned value: [(operand, block the value comes from)] following phi chains back from each ret."""
+    out = []
+    for r in fn.rets():
+        ops = r.get("ops", ())
+        if not ops:
+            out.append((None, r["_bb"]))
+            continue
+        seen = set()
+        st = [(ops[0], r["_bb"])]
+        while st:
+            o, bb = st.pop()
+            if o.get("k") == "v":
+                d = fn.defs.get(o["id"])
+                if d is not None and d["op"] == "phi" and (o["id"], bb) not in seen:
+                    seen.add((o["id"], bb))
+                    for inc in d["incoming"]:
+                        st.append((inc["v"], inc["bb"]))
+                    continue
+            out.append((o, bb))
+    return out
